@@ -1066,7 +1066,7 @@ func (s *Sys) syncPodsNotify() (changed bool) {
 			names[p.Name] = true
 		}
 	}
-	for _, n := range s.C.GhostPods(NS) {
+	for _, n := range s.C.PendingPodEvents(NS) {
 		names[n] = true
 	}
 	for _, n := range keys(names) {
